@@ -105,6 +105,7 @@ def run_variant(v) -> dict:
             return {'id': v['id'], 'prop': v['prop'], 'kind': v['kind'], 'result': 'skipped', 'why': skip}
         mod = importlib.import_module(f'sa.props.{v["prop"].lower()}')
         buf = io.StringIO()
+        ctx = None
         try:
             with redirect_stdout(buf):
                 ctx = Ctx(v['prop'], 'quick', level=getattr(mod, 'LEVEL', 'other'),
@@ -115,7 +116,9 @@ def run_variant(v) -> dict:
             if ctx.floor_failures and not viol:
                 err = '%s: %s' % ctx.floor_failures[0]
         except AnalysisError as e:
-            viol, err = [], f'{e.rule}: {e.why}'
+            # as in check.py: violations reported before a rule gave up are the result of the run
+            viol = [o for o in ctx.obligations if o['status'] == 'violation'] if ctx is not None else []
+            err = None if viol else f'{e.rule}: {e.why}'
         except Exception as e:  # pylint: disable=broad-except
             viol, err = [], f'internal error: {type(e).__name__}: {e}'
         rules = sorted({o['rule'] for o in viol})
